@@ -144,7 +144,7 @@ _NOTE = "Trusted: Coq 8.16.1 kernel and vm_compute; the Go harness (builders, de
 TEXT = {
  "C01": dict(technique="Coq refinement proof (mutation semantics vs cell-map spec, row invariant) + differential correspondence on random programs, 3 engines",
              level="Theorems about the executable model of applyMutations/scrubRow/updateRow/ReadRows: the row invariant (families once, columns ascending, cells strictly descending, nothing empty) is preserved by every request, and each mutation refines the Bigtable cell-map semantics for all rows, mutation lists and clocks." + _CORR, note=_NOTE),
- "C02": dict(technique="Coq proof (resumable assembly invariant, frame lemmas over the handler model) + differential correspondence on random histories, both stores",
+ "C02": dict(technique="Coq proof (resumable assembly invariant, frame lemmas over the handler model, the file store's name-to-files mapping keeps different objects' files apart, stored names are non-empty valid UTF-8) + differential correspondence on random histories, both stores, and on the files Add creates for an exhaustive small name universe",
              level="Theorems about the handler model: a resumable session consistent with payload P keeps a prefix of P and completes with exactly P for every chunking/re-send/status-query sequence; upload-then-get, bad-MD5-keeps-previous, delete-makes-absent and other-objects-untouched for all states." + _CORR, note=_NOTE),
  "C03": dict(technique="Coq proof (range merge = set union, sorted/disjoint, scan exactness) + exhaustive RowSet enumeration over the adversarial key universe, 3 engines",
              level="Theorems about mergeRowRanges/mergeSimpleRanges and the scan: the merged ranges denote exactly the union of the requested keys and ranges for ALL range lists, the scan returns each qualifying row once in key order, limits take the first N rows with output." + _CORR, note=_NOTE),
@@ -158,7 +158,7 @@ TEXT = {
              level="Theorems about the interleaving model of the handlers (any number of threads, any schedule): the lock invariant, store effects on one object equal a serial order consistent with real time, of N writers conditioned on one generation or on non-existence exactly one succeeds, a metageneration-conditioned patch applies only to a matching state, no update is lost; memory-store reads return one committed version. The file store's three-step Add seen by a lock-free reader is refuted by a schedule (finding GCS-10). Correspondence: all interleavings of two requests at the yield point between precondition check and store mutation are executed on real goroutines and compared step by step, then the final state." + _CORR, note=_NOTE + " The object lock is atomic by C19; the Go scheduler and memory model are assumptions."),
  "C08": dict(technique="Coq proof over a disk-effect model (images at every crash point, restart function): durability and crash atomicity for all programs + point-in-time directory images at every request boundary and crash hook restarted on the real engine",
              level="Theorems about the disk model of the leveldb disk engine (definition files written as temp + rename, one leveldb directory per table, DeleteTable removing definition then directory, Create clearing a leftover directory first, Clear as one atomic batch): for every state reachable by requests, clean restarts and kills at crash points (leftover directories with rows included) the server restarted on the image after an acknowledged request serves the acknowledged state, and the image at every crash point inside metadata persistence, create and delete restarts to the state before or after the request — with one exception refuted by a witness and recorded as a finding (BT-18: drop-family purge before persistence). Correspondence: real directory images at every request boundary and crash hook are started as second servers and compared with the model's restart; program segments are separated by clean restarts or by kills at a crash point of the last request, the next segment carrying on from that image." + _CORR, note=_NOTE + " goleveldb recovery, rename atomicity and 'kill -9 = OS-level image' are assumptions; power loss is out of scope."),
- "C09": dict(technique="Coq proof (file-store walk model lists exactly what the memory-store walk lists, hence equal answers for all request histories) + paired differential correspondence (both stores against their models) with a restart probe at request boundaries",
+ "C09": dict(technique="Coq proof (file-store walk model lists exactly what the memory-store walk lists, hence equal answers for all request histories; the name-to-files mapping keeps different objects' content files and sidecars apart) + paired differential correspondence (both stores against their models) with a restart probe at request boundaries",
              level="One handler model serves both stores and differs only in the listing walk (the file store's walk also meets the directory entries that lead to each name); theorems show that the two walks list the same for every delimiter, cursor, prefix and page size, hence that whole request histories are answered identically by both stores (the former filepath.Walk order, GCS-2, is kept as a refuted witness of what the repair changed). Correspondence: each program runs on both real stores against the corresponding model; on the file store a fresh emulator instance on the same directory must answer like the running one at request boundaries; a sidecar-less content file must be served." + _CORR, note=_NOTE),
  "C10": dict(technique="Coq invariant proof (generation counter monotone, metageneration laws) + differential correspondence on random histories and on all interleavings of a patch with a second writer of the object, both stores",
              level="Theorems over all histories of the handler model with the store clock as a strictly increasing counter: every content write gets a generation above everything handed out before and metageneration 1; a patch bumps only metageneration; reads and failures change nothing." + _CORR, note=_NOTE + " Assumes the stores' wall clock strictly increases between successive writes."),
